@@ -47,12 +47,33 @@ def content_of(spec):
     return random.Random(spec[0]).randbytes(spec[1])
 
 
+class BackendError(OSError):
+    """An OSError subclass of some storage backend: it carries an errno but
+    is not one of the built-in errno-specific subclasses."""
+
+
+def make_oserror(e, style, *info):
+    """An OSError with errno e, built the way different callers build them:
+    'auto' - OSError(e, ...) (Python picks FileNotFoundError etc.),
+    'subclass' - a backend's own OSError subclass carrying the errno,
+    'assigned' - a bare OSError whose errno is assigned afterwards."""
+    msg = 'injected %s' % errno.errorcode.get(e, e)
+    if style == 'subclass':
+        return BackendError(e, msg, *info)
+    if style == 'assigned':
+        x = OSError(msg)
+        x.errno = e
+        return x
+    return OSError(e, msg, *info)
+
+
 class OsProxy:
     """fileutils.os: real os underneath, faults injected per plan."""
 
-    def __init__(self, plan, rec):
+    def __init__(self, plan, rec, style=None):
         self._plan = plan          # {'makedirs': errno, 'write': errno, ...}
         self._rec = rec
+        self._style = style
         self.path = os.path
         self.SEEK_END = os.SEEK_END
         self.SEEK_SET = os.SEEK_SET
@@ -65,8 +86,7 @@ class OsProxy:
         self._rec['calls'].append(call)
         if e is not None:
             self._rec['fired'].append(call)
-            raise OSError(e, 'injected %s' % errno.errorcode.get(e, e),
-                          *info)
+            raise make_oserror(e, self._style, *info)
 
     def makedirs(self, path, mode=0o777, exist_ok=False):
         if exist_ok and self._plan.get('makedirs') == errno.EEXIST and \
@@ -116,7 +136,9 @@ class C20(Check):
     RUNS = {'quick': 0, 'thorough': 0}   # set below
     BLOCK = 50
     RULE = ('the first runs of a batch are the errno sweep: every errno of '
-            'errno.errorcode injected into makedirs (ensure_tree; path '
+            'errno.errorcode (as OSError(errno), as a backend\'s own OSError '
+            'subclass, as an OSError with the errno assigned) injected into '
+            'makedirs (ensure_tree; path '
             'missing / existing directory / existing file) and into the '
             'remove function (delete_if_exists); the remaining runs are '
             'seeded cases: compute_file_checksum (content sizes around '
@@ -153,13 +175,14 @@ class C20(Check):
 
     def __init__(self):
         self.sweep = []
-        for e in ERRNOS:
-            for state in ('missing', 'dir', 'file'):
-                self.sweep.append({'fn': 'ensure_tree', 'errno': e,
-                                   'state': state})
-            for state in ('missing', 'file'):
-                self.sweep.append({'fn': 'delete_if_exists', 'errno': e,
-                                   'state': state})
+        for style in ('auto', 'subclass', 'assigned'):
+            for e in ERRNOS:
+                for state in ('missing', 'dir', 'file'):
+                    self.sweep.append({'fn': 'ensure_tree', 'errno': e,
+                                       'state': state, 'style': style})
+                for state in ('missing', 'file'):
+                    self.sweep.append({'fn': 'delete_if_exists', 'errno': e,
+                                       'state': state, 'style': style})
         self.RUNS = {'quick': len(self.sweep) + 50000,
                      'thorough': len(self.sweep) + 3000000}
 
@@ -739,7 +762,8 @@ class C20(Check):
         fu = self.fu
         p = self._mkstate(work, case['state'])
         e = case.get('errno')
-        fu.os = OsProxy({'makedirs': e} if e is not None else {}, rec)
+        fu.os = OsProxy({'makedirs': e} if e is not None else {}, rec,
+                        style=case.get('style'))
         outs = []
         for _rep in range(2 if case.get('twice') else 1):
             try:
@@ -810,7 +834,7 @@ class C20(Check):
                 if e is not None:
                     def remover(path):
                         calls.append(path)
-                        raise OSError(e, 'injected', path)
+                        raise make_oserror(e, case.get('style'), path)
                     fu.delete_if_exists(p, remove=remover)
                 elif case.get('default_remove', True):
                     fu.delete_if_exists(as_kind(p, case.get('path_kind')))
@@ -885,6 +909,7 @@ class C20(Check):
 
     def extra_coverage(self, agg):
         return {'errno_sweep': {'errnos': len(ERRNOS),
+                                'error_construction_styles': 3,
                                 'placements': len(self.sweep),
                                 'complete_for': 'errno x {makedirs: path '
                                 'missing/dir/file; remove: missing/file}'}}
